@@ -234,6 +234,13 @@ def run(ctx, chk):
     seen = set()
 
     def getter_call(pa, t, name):
+        # the value must arrive unchanged: a narrowing on the way (a 64-bit count or tag number through a 32-bit local) is
+        # not "the value of the source"
+        u = t
+        while isinstance(u, tuple) and u[0] == "cast":
+            if u[1] == "trunc":
+                return False
+            u = u[3]
         t = strip(t)
         if not (isinstance(t, tuple) and t[0] == "call" and t[1] == name):
             return False
